@@ -260,6 +260,15 @@ func ruleDeletePrune(c *Ctx, r *Report) {
 							emptiness = true
 						case "reflect.Value.Set", "reflect.Value.SetMapIndex", "reflect.Value.Call":
 							removal = true
+						default:
+							// a module helper that performs the removal (extracted function).
+							if g := c.funcOfCallee(Callee(info, cc)); g != nil {
+								for _, h := range c.astReach(g) {
+									if len(CallsIn(h.Info(), h.Decl.Body, "reflect.Value.Set", "reflect.Value.SetMapIndex", "reflect.Value.Call")) > 0 {
+										removal = true
+									}
+								}
+							}
 						}
 					}
 					return true
@@ -381,6 +390,36 @@ func rulePartialKey(c *Ctx, r *Report) {
 				break
 			}
 			if neg {
+				// `if !args.partialKeyMatch { <exit> }`: what follows in the block runs under
+				// partialKeyMatch and widens the lookup; the absent-key test must then be a fact
+				// at that if statement.
+				if is, ok := pm[cur].(*ast.IfStmt); ok && is.Cond == cur && is.Else == nil && terminates(info, is.Body.List) {
+					n++
+					absent := ""
+					for _, ft := range c.FactsAt(f, is, false) {
+						if ft.Kind != "cond" {
+							continue
+						}
+						if id, ok := ast.Unparen(ft.Cond).(*ast.Ident); ok && !ft.Pos && boundByMapCommaOk(f, info.ObjectOf(id)) {
+							absent = "comma-ok miss (enclosing)"
+						}
+						if be, ok := ast.Unparen(ft.Cond).(*ast.BinaryExpr); ok && ft.Pos && be.Op == token.EQL {
+							if call, ok := ast.Unparen(be.X).(*ast.CallExpr); ok && len(call.Args) == 1 {
+								if id, ok := call.Fun.(*ast.Ident); ok && id.Name == "len" {
+									if v, ok := ConstOf(info, be.Y); ok && v == "0" {
+										if tv, ok := info.Types[call.Args[0]]; ok {
+											if _, isMap := tv.Type.Underlying().(*types.Map); isMap {
+												absent = "len(keys) == 0 (enclosing)"
+											}
+										}
+									}
+								}
+							}
+						}
+					}
+					r.Check(absent != "", fmt.Sprintf("ytypes.%s:partialKeyMatch#%d", name, n), c.Pos(sel.Pos()), "early exit on !partialKeyMatch inside "+absent,
+						name+" widens a lookup under partialKeyMatch (code after `if !args.partialKeyMatch { exit }`) without testing that the key is absent from the path")
+				}
 				return true
 			}
 			if _, isKV := pm[sel].(*ast.KeyValueExpr); isKV {
